@@ -1,7 +1,7 @@
 """C10 - object filtering keeps exactly the objects satisfying the configured criteria."""
 from fractions import Fraction
 
-from perception_eval.common.label import AutowareLabel, Label
+from perception_eval.common.label import AutowareLabel, Label, TrafficLightLabel
 from perception_eval.common.object import DynamicObject
 from perception_eval.common.object2d import DynamicObject2D
 from perception_eval.common.schema import FrameID
@@ -94,9 +94,10 @@ def _mean(xs):
 
 def spec_keep(o, is_gt, targets, p):
     """The statement transcribed: does the filter keep object `o`?"""
-    if o.label == FP:
+    if o.label.value == "false_positive":  # either label family
         return True
-    relaxed = o.label == UNK and not is_gt and UNK not in targets
+    unknown = type(o.label).UNKNOWN
+    relaxed = o.label == unknown and not is_gt and unknown not in targets
 
     def thr(lst):
         if relaxed:
@@ -244,12 +245,19 @@ def results_filter(frame, ego_q, kinds, has_gt):
     return Out(parts=parts, obs={"kept": kept})
 
 
-def roi_objects(kinds):
-    """2-D objects (no position): label / confidence / uuid criteria only."""
-    tl = TARGETSETS["car_ped"]
+TL = TrafficLightLabel
+TL_TARGETS = {"green_red": [TL.GREEN, TL.RED], "green_unknown_red": [TL.GREEN, TL.UNKNOWN, TL.RED]}
+
+
+def roi_objects(kinds, family="autoware", targets="car_ped"):
+    """2-D objects (no position): label / confidence / uuid criteria only; Autoware and traffic-light label sets."""
+    if family == "autoware":
+        tl, labels = TARGETSETS[targets], [CAR, PED, UNK, FP, BUS]
+    else:
+        tl, labels = TL_TARGETS[targets], [TL.GREEN, TL.RED, TL.UNKNOWN, TL.FP, TL.YELLOW]
     p = _lists(tl, kinds)
     is_gt = flag("is_gt")
-    label = choose("o_label", [CAR, PED, UNK, FP, BUS])
+    label = choose("o_label", labels)
     conf = real("o_conf", 0, 1)
     if is_gt:
         assume(conf == 1)
@@ -291,8 +299,12 @@ def obligations(pid, tier):
                    desc="the same object instances filtered under two different ego poses"),
         Obligation("results_filter", results_filter, cases=resf, extras=lazy_extras,
                    desc="filter_object_results keeps a result iff estimate and ground truth both pass"),
-        Obligation("roi_objects", roi_objects, cases=[dict(kinds=k) for k in [(), ("conf",), ("uuid",), ("conf", "uuid")]],
-                   desc="2-D objects: label/confidence/uuid criteria"),
+        Obligation("roi_objects", roi_objects,
+                   cases=[dict(kinds=k) for k in [(), ("conf",), ("uuid",), ("conf", "uuid")]]
+                   + [dict(kinds=k, targets="ped_car_unk") for k in [(), ("conf",)]]
+                   + [dict(kinds=k, family="traffic_light", targets=t) for t in TL_TARGETS for k in [(), ("conf",), ("conf", "uuid")]],
+                   desc="2-D objects: label/confidence/uuid criteria, Autoware and traffic-light label sets with and "
+                        "without UNKNOWN as a target"),
     ]
 
 
